@@ -14,9 +14,10 @@ CONSTANTS
   Weak_ValUpdatesEarly = FALSE
   Weak_ParamsBookkeeping = FALSE
   Weak_CommitAddrUnchecked = FALSE
+  Weak_StoredResponsesDropParamUpdates = FALSE
   Weak_BudgetUsesCurrentVals = FALSE
 INIT Init
 NEXT Next
-INVARIANTS MadeBlocksValid PerturbedRejected RebuildJudged AcceptedTimeIsSignerWeightedMedian MedianIsWeightedMedian TwoHeightDelay OneHeightDelay StateWellFormed StoreLookups ProposalFits
+INVARIANTS MadeBlocksValid PerturbedRejected RebuildJudged AcceptedTimeIsSignerWeightedMedian MedianIsWeightedMedian TwoHeightDelay OneHeightDelay StateWellFormed StoreLookups ProposalFits NextStateSame
 VIEW ChainView
 CHECK_DEADLOCK FALSE
